@@ -48,7 +48,8 @@
    Well-formedness (representation invariants only, NOT the ppci verifier): [wf_modul : modul ->
    bool] — ids in print order, every reference/target resolves, no Unres, phi inputs have
    distinct blocks, names of (parameters ++ values) unique per function and disjoint from the
-   module-level names, block names unique per function, module-level names unique, blocks
+   module-level names, block names unique per function and distinct from the value names of
+   that function (ppci: SubRoutine.defined_names is shared), module-level names unique, blocks
    non-empty and ending in their only terminator.
    Printing: ToVal instances; [toval m] equals vlib.to_val(irimport.module_to_py(m)).
    No proofs about ppci here. *)
@@ -321,7 +322,8 @@ Definition wf_func (gnames : list string) (f : func) : bool :=
   && forallb (wf_instr gnames f) (func_instrs f)
   && nodup_str (func_local_names f)
   && forallb (fun s => negb (mem_str s gnames)) (func_local_names f)
-  && nodup_str (map b_name (f_blocks f)).
+  && nodup_str (map b_name (f_blocks f))
+  && forallb (fun s => negb (mem_str s (map b_name (f_blocks f)))) (map def_name (func_defs f)).
 Definition wf_init (gnames : list string) (i : init) : bool :=
   match i with InitBytes d => all_byte d | InitRef _ s => true end.
 Definition wf_gvar (gnames : list string) (g : gvar) : bool :=
